@@ -3,6 +3,7 @@ package props
 import (
 	"bytes"
 	"fmt"
+	"io"
 	"testing"
 
 	"github.com/ipfs/go-cid"
@@ -77,12 +78,63 @@ func shapeClasses(w *oracle.Walker, root cid.Cid) (full, singleInterior, singleC
 	return
 }
 
+// zeroReader yields n zero bytes without holding them in memory.
+type zeroReader struct{ left int64 }
+
+func (z *zeroReader) Read(p []byte) (int, error) {
+	if z.left <= 0 {
+		return 0, io.EOF
+	}
+	n := int64(len(p))
+	if n > z.left {
+		n = z.left
+	}
+	for i := int64(0); i < n; i++ {
+		p[i] = 0
+	}
+	z.left -= n
+	return int(n), nil
+}
+
 func TestC07(t *testing.T) {
 	r := mon.Start(t, "C07")
 	defer r.Close()
+	if !r.Quick() {
+		// sizes at and beyond 2^32 bytes: streamed zeros (identical leaves keep the stores tiny)
+		for _, hc := range []struct {
+			n  int64
+			w  int
+			ch string
+		}{{1<<32 + 1, 2, "size-1048576"}, {1 << 32, 3, "size-1048576"}, {1<<31 + 7, 2, "size-524288"}} {
+			hc := hc
+			r.Case(fmt.Sprintf("huge/w%d/%s/len%d", hc.w, hc.ch, hc.n), map[string]any{"len": hc.n, "width": hc.w, "chunker": hc.ch, "content": "zero stream"}, func(c *mon.Case) {
+				st := store.New()
+				var l ipld.Link
+				var size uint64
+				var err error
+				withWidth(hc.w, func() { l, size, err = builder.BuildUnixFSFile(&zeroReader{left: hc.n}, hc.ch, st.LinkSystem(false)) })
+				if err != nil {
+					c.Violation("C07|build-error", "BuildUnixFSFile of %d bytes: %v", hc.n, err)
+					return
+				}
+				ref := store.New()
+				rroot, rsize, err := oracle.RefImport(ref, &zeroReader{left: hc.n}, hc.ch, hc.w, oracle.ImportMode{Layout: "balanced", RawLeaves: true, CidV1: true})
+				if err != nil {
+					c.Harness("reference importer: %v", err)
+					return
+				}
+				c.Count("compared", 1)
+				c.Count("compared_ge_2e31_bytes", 1)
+				if !linkCid(l).Equals(rroot) || size != rsize {
+					c.Violation("C07|root-differs|huge", "%d bytes, width %d, %s: builder (%s, %d), reference (%s, %d); %s", hc.n, hc.w, hc.ch, l, size, rroot, rsize, firstDagDifference(walkerFor(st), walkerFor(ref), linkCid(l), rroot, "root", 0))
+				}
+				c.Sig(fmt.Sprintf("huge|w%d|%d", hc.w, hc.n>>30), true)
+			})
+		}
+	}
 	seen := map[string]bool{}
-	for _, fc := range fileCases(r) {
-		fc := fc
+	for ci, fc := range fileCases(r) {
+		ci, fc := ci, fc
 		id := fc.id("cmp")
 		if seen[id] {
 			continue
@@ -94,9 +146,19 @@ func TestC07(t *testing.T) {
 			var root cid.Cid
 			var size uint64
 			var err error
+			// every third case hands the builder a seekable reader that was already advanced (as after
+			// reading a header): the content is what the reader yields from its current position
+			var src io.Reader = bytes.NewReader(content)
+			if ci%3 == 1 {
+				junk := gen.Content(c.Rand(), "rand", 1+c.Rand().Intn(300))
+				br := bytes.NewReader(append(append([]byte(nil), junk...), content...))
+				br.Seek(int64(len(junk)), io.SeekStart)
+				src = br
+				c.Count("advanced_seekable_readers", 1)
+			}
 			withWidth(fc.Width, func() {
 				var l ipld.Link
-				l, size, err = builder.BuildUnixFSFile(bytes.NewReader(content), fc.Chunker, st.LinkSystem(false))
+				l, size, err = builder.BuildUnixFSFile(src, fc.Chunker, st.LinkSystem(false))
 				root = linkCid(l)
 			})
 			if err != nil {
